@@ -799,6 +799,42 @@ def same_name_constructor(ck, rid, ci, exceptions=()):
         else:
             ck.violation(rid, init, n.stmt, f"{ci.name}.{a} is built from {sorted(others) or sorted(names & set(params)) or 'no parameter'} instead of its own parameter "
                          f"`{own}`: the object reports another quantity under this name", sink=f"{ci.name}.{a}:source")
+    # a parameter whose like-named attribute is read somewhere in the class must be stored by the constructor (directly or by the
+    # parent constructor it delegates to)
+    parent_params = set()
+    sup_calls = [c for n, c in calls_in(fl, "__init__") if isinstance(c.func, ast.Attribute) and isinstance(c.func.value, ast.Call) and call_name(c.func.value) == "super"]
+    parents = repo.mro(ci)[1:]
+    pinit = next((pc.methods["__init__"] for pc in parents if "__init__" in pc.methods), None)
+    for c in sup_calls:
+        if pinit is None:
+            continue
+        try:
+            b = bind_args(c, pinit, method=True)
+        except AnalysisError:
+            continue
+        for pp, a in b.items():
+            if isinstance(a, ast.Name) and a.id in params:
+                parent_params.add(a.id)
+                if a.id in pinit.params and pp in params:
+                    ck.require(a.id == pp, rid, init, c, ok=f"{a.id} passed on as {pp}", bad=f"`{a.id}` is passed to the parent constructor as `{pp}`", sink=f"{ci.name}:super:{pp}<-{a.id}")
+    if pinit is not None and any(p_ in pinit.params for p_ in params) and not sup_calls and "BaseSimObj" not in (pinit.cls.name if pinit.cls else ""):
+        ck.violation(rid, init, init.node.name, f"{ci.name}.__init__ no longer calls the parent constructor {pinit.qual}: the inherited attributes are never set",
+                     sink=f"{ci.name}:super-missing")
+    reads = set()
+    for c_ in repo.mro(ci):
+        for m in list(c_.methods.values()) + list(c_.setters.values()):
+            for x in walk_local(m.node):
+                if isinstance(x, ast.Attribute) and isinstance(x.ctx, ast.Load) and isinstance(x.value, ast.Name) and x.value.id == "self":
+                    reads.add(x.attr)
+    all_w = state_writes(fl)
+    for p_ in params:
+        cands = [a_ for a_ in (p_, "_" + p_) if a_ in reads]
+        if not cands or p_ in parent_params:
+            continue
+        attr = cands[-1]
+        if not any(p.split(".", 1)[1] in (p_, "_" + p_) for _, _, p, _ in all_w if p.startswith("self.")):
+            ck.violation(rid, init, init.node.name, f"{ci.name}.__init__ never stores its parameter `{p_}` although self.{attr} is read elsewhere in the class",
+                         sink=f"{ci.name}.{attr}:never-stored")
     # every owned parameter is stored on every normal path
     for own in sorted(owned):
         stores = [n for n, k, p, t in writes if p.split(".")[1] in (own, "_" + own)]
